@@ -477,6 +477,9 @@ func (o *oracle) signed(n *node, rl *released) {
 	if !less3(cur, o.maxSigned[n.id]) {
 		o.maxSigned[n.id] = cur
 	}
+	if rl.vote != nil && rl.vote.Type == types.PrevoteType && !o.s.stop {
+		o.lockedPrevote(n, rl.vote)
+	}
 }
 
 func less3(a, b [3]int64) bool {
@@ -493,12 +496,53 @@ func (o *oracle) lockEvents(n *node, hrs cstypes.HRS, kind string) {
 	switch kind {
 	case "lock":
 		nr.lockRound[hrs.Height] = hrs.Round + 1
+	case "relock":
+		nr.lockRound[hrs.Height] = hrs.Round + 1
 	case "unlock":
-		if lr := nr.lockRound[hrs.Height]; lr > 0 && hrs.Round+1 > lr {
-			o.s.r.Probe("unlock_on_later_polka")
+		if lr := nr.lockRound[hrs.Height]; lr > 0 {
+			if hrs.Round+1 > lr {
+				o.s.r.Probe("unlock_on_later_polka")
+			}
+			// C31 (locking rule, state.go addVote / enterPrecommit): a locked node unlocks only on a polka of a
+			// round later than its lock round. Majorities never disappear, so the node's sets now still show it.
+			rs := n.cs.GetRoundState()
+			if rs.Height == hrs.Height {
+				ok := false
+				for q := lr; q <= hrs.Round && q <= rs.Votes.Round(); q++ { // lr is lockRound+1
+					if pv := rs.Votes.Prevotes(q); pv != nil {
+						if _, has := pv.TwoThirdsMajority(); has {
+							ok = true
+							break
+						}
+					}
+				}
+				if !ok {
+					o.s.fail("C31", "lock_rule_unlock", "n%d, locked in round %d of height %d, unlocked in round %d although none of its prevote sets of rounds %d..%d has a +2/3 majority",
+						n.id, lr-1, hrs.Height, hrs.Round, lr, hrs.Round)
+				}
+			}
 		}
 		nr.lockRound[hrs.Height] = 0
 	}
+}
+
+// lockedPrevote: C31 (locking rule, defaultDoPrevote): while locked on B a node prevotes B.
+func (o *oracle) lockedPrevote(n *node, v *types.Vote) {
+	nr := o.nref(n)
+	lr := nr.lockRound[v.Height]
+	if lr == 0 || v.Round < lr {
+		return
+	}
+	pc, ok := n.signed[fmt.Sprintf("%d/%d/%d", v.Height, lr-1, byte(types.PrecommitType))]
+	if !ok || pc.vote == nil || pc.vote.BlockID.IsZero() {
+		return
+	}
+	if !v.BlockID.Equals(pc.vote.BlockID) {
+		o.s.fail("C31", "lock_rule_prevote", "n%d is locked on %X since round %d of height %d (no unlock since) but signed a prevote for %X in round %d",
+			n.id, pc.vote.BlockID.Hash, lr-1, v.Height, v.BlockID.Hash, v.Round)
+		return
+	}
+	o.s.r.Probe("prevoted_locked_block")
 }
 
 // ---------------------------------------------------------------------------
